@@ -2,10 +2,12 @@
    byte strings stay the extracted inductive datatypes. *)
 Require Extraction.
 Require Import ExtrOcamlBasic.
-From GP Require Import Bytes Generated Cli FsProto Discover.
+From GP Require Import Bytes Generated Cli FsProto Discover Section Meta PosMap.
 
 Extraction "gpmodel.ml"
   check_generated_code
   run all_errors exit_status api_apply
   check_run run_ops
-  find_files abs_string.
+  find_files abs_string
+  split split_patch to_bytes
+  parse_meta compile_meta lookup_var meta_position.
